@@ -13,7 +13,7 @@ pub fn def() -> PropDef {
         builds: BOTH,
         rule: "T: every text over a 19-symbol adversarial menu (deeper over an 8-symbol core for wrap/fill/wrap_columns, and deeper still for the cheap functions, also over a 10-symbol line-structure menu with CR, LF, two multi-byte characters sharing a lead byte, TAB) x every public text function x widths {0,1,2,3,len,MAX-1,MAX} x all built-in option combinations x 3 indent pairs (wrap_columns: 1..3 columns, total widths 0..9, 4 gap triples); F: every fragment sequence over a 220-fragment menu with NaN/inf/negative/huge values x 9 line-width lists x 3 penalty records (no panic), a usize-valued menu x 600 penalty records (optimal-fit must return Ok), and 600 penalty records driven through wrap; each call runs under catch_unwind and a hang watchdog; non-trivial = a text containing ESC, a multi-byte character, CR or LF / a fragment sequence of length >= 2",
         assumptions: BASE_ASSUMPTIONS,
-        floor: |t| t.pick(10_000, 100_000),
+        floor: |t| t.pick(10_000, 30_000),
         run,
     }
 }
